@@ -646,6 +646,19 @@ func ruleWInsc(c *Ctx) {
 				op, ok2 := constInt(call.Call.Args[2])
 				if ok1 && ok2 {
 					reader[i.Int64()] = fmt.Sprintf("op:%02x", op.Int64())
+				} else {
+					// the template as a table of (index, opcode) rows walked by a loop
+					rows1, f1 := rowFieldOfTable(c.P, call.Call.Args[1])
+					rows2, f2 := rowFieldOfTable(c.P, call.Call.Args[2])
+					if rows1 != nil && rows2 != nil && len(rows1) == len(rows2) {
+						for ri, row := range rows1 {
+							iv, okI := row[f1]
+							ov, okO := rows2[ri][f2]
+							if okI && okO {
+								reader[iv.Int64()] = fmt.Sprintf("op:%02x", ov.Int64())
+							}
+						}
+					}
 				}
 			case "HasPrefix":
 				// bytes.HasPrefix(parts[7], "ord")
